@@ -274,14 +274,17 @@ Require Import List.
 Inductive tolsrc : Set := TAtol | TRtol | TNone | TOther.
 Inductive solverkind : Set := RootScalar | RootHybr.
 (** (source line, solver, what is passed as xtol, what is passed as rtol) *)
+(** tf_plain: the call uses only the pinned keywords (root_scalar: bracket | x0,x1, method in
+    {brentq, secant, default}, xtol, rtol, args; root: method="hybr", options={"xtol": ...}) *)
 Record tolfact : Set := mk_tolfact { tf_line : nat; tf_kind : solverkind;
-                                     tf_xtol : tolsrc; tf_rtol : tolsrc }.
+                                     tf_xtol : tolsrc; tf_rtol : tolsrc; tf_plain : bool }.
 Definition tolsrc_val (s : tolsrc) (rt at_ : R) : R :=
   match s with TAtol => at_ | TRtol => rt | _ => 0 end.
 (** accuracy requested from the root finder at a root x *)
 Definition requested_accuracy (f : tolfact) (rt at_ x : R) : R :=
   tolsrc_val (tf_xtol f) rt at_ + tolsrc_val (tf_rtol f) rt at_ * Rabs x.
 Definition roles_ok (f : tolfact) : bool :=
+  tf_plain f &&
   match tf_kind f, tf_xtol f, tf_rtol f with
   | RootScalar, TAtol, TRtol => true
   | RootHybr, TAtol, TNone => true
@@ -291,8 +294,8 @@ Lemma roles_ok_meaning f rt at_ x :
   roles_ok f = true -> tf_kind f = RootScalar ->
   requested_accuracy f rt at_ x = at_ + rt * Rabs x.
 Proof.
-  destruct f as [l k a b]. unfold roles_ok, requested_accuracy. cbn.
-  intros H K. subst k. destruct a; destruct b; try discriminate. reflexivity.
+  destruct f as [l k a b pl]. unfold roles_ok, requested_accuracy. cbn.
+  intros H K. subst k. destruct pl; destruct a; destruct b; try discriminate. reflexivity.
 Qed.
 
 (** * From the residuals the code solves to the polynomial junction residuals (exact) *)
@@ -324,23 +327,33 @@ Inductive pathkind : Set :=
   | KRetZeros           (* return (0, 0, 0, 0, 0) *)
   | KRetNone            (* return (vp, vm, Tp, Tm, None) *)
   | KRetBoundaries      (* return (c1, c2, Tp, Tm, velocityMid) *)
-  | KOther.             (* any other return, any other (re)definition of vp/vm/Tp/Tm *)
-Inductive hmethod : Set := MFindMatching | MFindHydroBoundaries.
+  | KAssignBoundaries   (* (c1, c2, Tplus, Tminus, velocityMid) =
+                             self.hydrodynamics.findHydroBoundaries(wallVelocity) *)
+  | KPassBoundaries     (* self._intermediatePressureResults(..., c1, c2, velocityMid, ...,
+                             Tplus, Tminus) with these very names *)
+  | KOther.             (* any other return, any other (re)definition of vp/vm/Tp/Tm or of the
+                           handed-over constants, any store to the velocity PARAMETER, any
+                           attribute / subscript store *)
+Inductive hmethod : Set := MFindMatching | MFindHydroBoundaries | MWallPressure.
 Record pathfact : Set := mk_pathfact { pf_method : hmethod; pf_line : nat; pf_kind : pathkind }.
 Definition path_ok (f : pathfact) : bool :=
   match pf_method f, pf_kind f with
   | MFindMatching, (KAssignDeton | KAssignDeflag | KRetTemplate | KRetNames) => true
   | MFindHydroBoundaries, (KAssignFindMatching | KRetZeros | KRetNone | KRetBoundaries) => true
+  | MWallPressure, (KAssignBoundaries | KPassBoundaries) => true
   | _, _ => false
   end.
 Definition has_path (m : hmethod) (k : pathkind) (l : list pathfact) : bool :=
   existsb (fun f => match pf_method f, m with
-                    | MFindMatching, MFindMatching | MFindHydroBoundaries, MFindHydroBoundaries =>
+                    | MFindMatching, MFindMatching | MFindHydroBoundaries, MFindHydroBoundaries
+                    | MWallPressure, MWallPressure =>
                         match pf_kind f, k with
                         | KAssignDeton, KAssignDeton | KAssignDeflag, KAssignDeflag
                         | KAssignFindMatching, KAssignFindMatching | KRetTemplate, KRetTemplate
                         | KRetNames, KRetNames | KRetZeros, KRetZeros | KRetNone, KRetNone
-                        | KRetBoundaries, KRetBoundaries => true
+                        | KRetBoundaries, KRetBoundaries
+                        | KAssignBoundaries, KAssignBoundaries
+                        | KPassBoundaries, KPassBoundaries => true
                         | _, _ => false end
                     | _, _ => false end) l.
 (** every value findMatching returns is the result of matchDeton(vwTry), of
@@ -350,4 +363,6 @@ Definition paths_wellformed (l : list pathfact) : bool :=
   forallb path_ok l && has_path MFindMatching KAssignDeton l
   && has_path MFindMatching KAssignDeflag l && has_path MFindMatching KRetNames l
   && has_path MFindHydroBoundaries KAssignFindMatching l
-  && has_path MFindHydroBoundaries KRetBoundaries l.
+  && has_path MFindHydroBoundaries KRetBoundaries l
+  && has_path MWallPressure KAssignBoundaries l
+  && has_path MWallPressure KPassBoundaries l.
